@@ -237,6 +237,39 @@ Section Flat.
         end.
   Proof. reflexivity. Qed.
 
+  (* the defining equation of switch_loop (text of Model/Expand.v) *)
+  Lemma switch_loop_S f stk val cases match_next next_default defval lastv :
+    switch_loop (S f) stk val cases match_next next_default defval lastv =
+      let ex := fun a => option_map strip_i (expand_recurse f stk true a) in
+      let same := fun (x y : enc) => mw_equal (codes x) (codes y) in
+      match cases with
+      | [] => match defval with
+              | Some d => ex d
+              | None => Some (match lastv with Some l => l | None => [] end)
+              end
+      | a :: rest =>
+        match split_switch a with
+        | None =>
+          match ex a with
+          | None => None
+          | Some l =>
+            switch_loop f stk val rest (match_next || same l val)
+                        (next_default || str_eqb (lower (codes l)) s_default) defval (Some l)
+          end
+        | Some (k, v) =>
+          let defval1 := if next_default && negb (match v with [] => true | _ => false end) then Some v else defval in
+          let next_default1 := if next_default && negb (match v with [] => true | _ => false end) then false else next_default in
+          match ex k with
+          | None => None
+          | Some k' =>
+            if same k' val || match_next then ex v
+            else switch_loop f stk val rest match_next next_default1
+                             (if str_eqb (lower (codes k')) s_default then Some v else defval1) None
+          end
+        end
+      end.
+  Proof. reflexivity. Qed.
+
   Fixpoint size (e : enc) : nat :=
     match e with
     | [] => 1
@@ -860,6 +893,106 @@ Section Flat.
       assert (Hn := nth_plain more 2 Hm).
       rewrite (expand_recurse_plain pfnames lib opts _ Hn) by (assert (L := nth_length_le more 2); lia).
       reflexivity.
+  Qed.
+
+  (** #switch with plain keyed cases (C04): {{#switch: x | k1 = v1 | k2 = v2 | ... }}, every case of the form key=value, is
+      the value of the first case whose key equals x (ParserFns.mw_equal, both trimmed), else the value of the last
+      "#default = v" case, else empty. *)
+  Notation switch_head := FlatCall.switch_head.
+  Notation mkcase := FlatCall.mkcase.
+  Notation case_ok := FlatCall.case_ok.
+  Notation switch_result := FlatCall.switch_result.
+
+  Lemma strip_switch_head cond : strip_i (switch_head ++ cond) = switch_head ++ rstrip_i cond.
+  Proof.
+    unfold strip_i. assert (Hl : lstrip_i (switch_head ++ cond) = switch_head ++ cond) by reflexivity. rewrite Hl.
+    unfold rstrip_i. rewrite rev_app_distr, lstrip_i_app.
+    destruct (lstrip_i (rev cond)) eqn:E.
+    - cbn. reflexivity.
+    - rewrite rev_app_distr, rev_involutive. reflexivity.
+  Qed.
+
+  Lemma split_switch_case k v :
+    forallb (fun i => negb (is_code 61 i) && negb (is_code 60 i)) k = true ->
+    Expand.split_switch (k ++ Ch 61 :: v) = Some (k, v).
+  Proof.
+    induction k as [|i k IH]; intros H; [reflexivity|].
+    cbn in H. apply andb_true_iff in H. destruct H as [Hi Hk]. apply andb_true_iff in Hi. destruct Hi as [H61 H60].
+    apply negb_true_iff in H61. apply negb_true_iff in H60.
+    cbn [app Expand.split_switch]. rewrite H61, H60, (IH Hk). reflexivity.
+  Qed.
+
+  Definition cases_size (cases : list (enc * enc)) : nat :=
+    fold_right (fun kv n => (length (fst kv) + length (snd kv) + 2 + n)%nat) 0%nat cases.
+
+  Lemma switch_loop_simple stk1 val : forall cases d f,
+    forallb case_ok cases = true -> (match d with Some x => plain x = true | None => True end) ->
+    (cases_size cases + match d with Some x => length x | None => 0 end + 2 < f)%nat ->
+    switch_loop f stk1 val (map mkcase cases) false false d None = Some (switch_result val cases d).
+  Proof.
+    induction cases as [|[k v] cases IH]; intros d f Hok Hd Hf.
+    - destruct f as [|f]; [lia|]. rewrite switch_loop_S. cbn [map].
+      destruct d as [x|]; [|reflexivity].
+      cbn [FlatCall.switch_result]. rewrite (expand_recurse_plain pfnames lib opts x Hd) by (cbn in Hf; lia). reflexivity.
+    - destruct f as [|f]; [lia|]. rewrite switch_loop_S. cbn [map].
+      cbn in Hok. apply andb_true_iff in Hok. destruct Hok as [Hkv Hrest].
+      unfold FlatCall.case_ok in Hkv. cbn [fst snd] in Hkv.
+      apply andb_true_iff in Hkv. destruct Hkv as [Hkv Hv]. apply andb_true_iff in Hkv. destruct Hkv as [Hk Hne].
+      unfold FlatCall.mkcase at 1. cbn [fst snd].
+      rewrite (split_switch_case k v Hne).
+      cbn [negb andb]. cbv beta iota zeta.
+      unfold cases_size in Hf. cbn [fold_right fst snd] in Hf. fold (cases_size cases) in Hf.
+      rewrite (expand_recurse_plain pfnames lib opts k Hk) by lia.
+      cbn [option_map]. rewrite orb_false_r.
+      cbn [FlatCall.switch_result].
+      destruct (mw_equal (codes (strip_i k)) (codes val)) eqn:Em.
+      + rewrite (expand_recurse_plain pfnames lib opts v Hv) by lia. reflexivity.
+      + destruct (str_eqb (lower (codes (strip_i k))) s_default) eqn:Ed.
+        * apply IH; [exact Hrest | exact Hv | cbn; lia].
+        * apply IH; [exact Hrest | exact Hd | destruct d; cbn in *; lia].
+  Qed.
+
+  Theorem switch_plain stk ea x cases :
+    (length stk < 100)%nat -> plain x = true -> forallb case_ok cases = true -> o_parserfns opts = true ->
+    exists F, forall fuel, (F <= fuel)%nat ->
+      expand_T fuel stk ea ((switch_head ++ x) :: map mkcase cases)
+      = Some (add_newline (switch_result (strip_i x) cases None)).
+  Proof.
+    intros Hdepth Hc Hm Hpf.
+    exists (length x + cases_size cases + 30)%nat.
+    intros fuel Hf. destruct fuel as [|f]; [lia|]. destruct f as [|f']; [lia|].
+    rewrite expand_T_S. replace (Nat.leb 100 (length stk)) with false by (symmetry; apply Nat.leb_gt; exact Hdepth).
+    assert (Hp : plain (switch_head ++ x) = true) by (rewrite plain_app, Hc; reflexivity).
+    rewrite (expand_recurse_plain pfnames lib opts _ Hp) by (rewrite app_length; cbn; lia).
+    cbv beta iota zeta. rewrite strip_switch_head.
+    assert (Hcodes : codes (switch_head ++ rstrip_i x)
+                     = 35 :: 115 :: 119 :: 105 :: 116 :: 99 :: 104 :: 58 :: codes (rstrip_i x)) by reflexivity.
+    rewrite Hcodes. cbn [index_of].
+    replace (35 =? 58) with false by reflexivity. replace (115 =? 58) with false by reflexivity.
+    replace (119 =? 58) with false by reflexivity. replace (105 =? 58) with false by reflexivity.
+    replace (116 =? 58) with false by reflexivity. replace (99 =? 58) with false by reflexivity.
+    replace (104 =? 58) with false by reflexivity. replace (58 =? 58) with true by reflexivity.
+    cbv beta iota. cbn [firstn].
+    assert (Hcanon : Expand.canon_pf pfnames [35; 115; 119; 105; 116; 99; 104] = [35; 115; 119; 105; 116; 99; 104]).
+    { unfold Expand.canon_pf. cbn [collapse_ws_us is_space N.eqb orb]. destruct (in_names _ pfnames); reflexivity. }
+    rewrite Hcanon.
+    assert (Hcl : Expand.classify_pf pfnames [35; 115; 119; 105; 116; 99; 104] = PfSwitch) by reflexivity. rewrite Hcl.
+    cbn [skipn FlatCall.switch_head chars s_switch map app].
+    rewrite expand_pf_S. rewrite Hpf. cbn [negb].
+    set (c0 := lstrip_i (rstrip_i x)).
+    assert (Hc0 : plain c0 = true) by (apply plain_lstrip, plain_rstrip; exact Hc).
+    assert (Lc0 : (length c0 <= length x)%nat).
+    { unfold c0, rstrip_i. assert (Ll : forall y, (length (lstrip_i y) <= length y)%nat).
+      { induction y as [|z y IHy]; [cbn; lia|]. cbn [lstrip_i]. destruct (sp_item z); cbn; lia. }
+      etransitivity; [apply Ll|]. rewrite rev_length. etransitivity; [apply Ll|]. rewrite rev_length. lia. }
+    cbv beta iota zeta.
+    rewrite (expand_recurse_plain pfnames lib opts c0 Hc0) by lia.
+    cbn [option_map].
+    assert (Hstrip : strip_i c0 = strip_i x).
+    { unfold c0, strip_i. rewrite lstrip_idem, lstrip_rstrip_comm, rstrip_idem. reflexivity. }
+    rewrite Hstrip.
+    rewrite (switch_loop_simple _ (strip_i x) cases None f' Hm I) by lia.
+    reflexivity.
   Qed.
 End Flat.
 
